@@ -91,6 +91,8 @@ def mk(op, N, k=1, tk=None, region=None, rname='', lead=2, trail=0, gap='sym', d
         parts.append('after-refused-messages')
     if extra and extra.get('presend'):
         parts.append('after-roStorySend-of-every-story')
+    if extra and extra.get('odd_timing'):
+        parts.append('other-story-with-free-text-timing')
     if k != 1:
         parts.append('k%d' % k)
     if tk and tk != 'existing':
